@@ -246,7 +246,7 @@ static void run_client(void)
 	int cfg = mc_choose(4, 0, "nreq-retries");
 	int nreq = 1 + (cfg & 1), retries = cfg >> 1;
 	int si = mc_choose(NSCRIPTS, 0, "script");
-	int plan = mc_choose(1 + (NACTIONS - 1) * 3, 0, "user-action");
+	int plan = mc_choose(1 + (NACTIONS - 1) * mc_param("maxat", 3), 0, "user-action");
 	const struct script *sc = &scripts[si];
 	int listener = -1, lport = 0, sv[2] = { -1, -1 };
 	memset(R, 0, sizeof R); nR = 0; nP = 0;
@@ -337,8 +337,11 @@ static void run_client(void)
 		if (q->err > 1) mc_fail("C27/client/error-cb-twice", "request %d: error callback ran %d times", i + 1, q->err);
 		if (q->done_after_cancel) mc_fail("C27/client/completion-after-cancel", "request %d: completion callback ran after the request was cancelled / freed with its connection", i + 1);
 		if (req_live(q) && !c_abandoned && !c_evcon_freed) {
-			char key[120];
-			snprintf(key, sizeof key, "C27/client/never-completes/%s", tnames[transport]);
+			char key[160];
+			/* what the connection looks like now is part of the key: distinct ways of getting stuck stay distinct */
+			const char *st = c_evcon->retry_cnt > 0 && !event_pending(&c_evcon->retry_ev, EV_TIMEOUT, NULL) ? "retry-count-left-nonzero-no-retry-pending" :
+			    c_evcon->state == EVCON_DISCONNECTED ? "disconnected" : c_evcon->state == EVCON_CONNECTING ? "connecting" : c_evcon->state == EVCON_IDLE ? "idle" : "in-exchange";
+			snprintf(key, sizeof key, "C27/client/never-completes/%s/%s", anames[c_plan_action], st);
 			mc_fail(key, "request %d of %d never got its completion callback (transport %s, script %s, retries %d, action %s@%d)", i + 1, nR, tnames[transport], sc->label, retries, anames[c_plan_action], c_plan_at);
 		}
 	}
@@ -468,7 +471,7 @@ static void run_server(void)
 			if (k > from) { hc_peer_write(s->fd, reqbytes + from, k - from); from = k; }
 			switch (f) {
 			case SF_PAUSE: hc_run(); break;
-			case SF_EOF: shutdown(s->fd, SHUT_WR); s->eof = 1; stop = 1; break;
+			case SF_EOF: shutdown(s->fd, SHUT_WR); s->eof = 1; stop = 1; if (k == n) { s->sent_request = 1; requests_sent++; } break;
 			case SF_CLOSE: close(s->fd); s->fd = -1; s->closed = 1; stop = 1; break;
 			}
 		}
